@@ -103,7 +103,8 @@ func runLife(work string) {
 	for i := 1; i <= n; i++ {
 		lifeScenario(e, dir, i, false)
 	}
-	e.Res.Rule = "lifecycles over real unix sockets: a non-poll Server with 1-3 clients (direct Conn, Transport, load-balancing Client) used idle / with calls in flight on a slow handler / with an open stream / with callers waiting for a target / with a dead peer, then closed in a seeded order (client first, server first, transport before conns ...), every Close repeated; afterwards the goroutine profile restricted to library frames and the number of open descriptors must be back to the baseline, repeated Close calls must return ErrShutdown (Conn) or nil (others), and Listen must have returned; non-trivial = distinct (usage, close order)"
+	lifeOpenThenGone(e)
+	e.Res.Rule = "lifecycles over real unix sockets: a non-poll Server with 1-3 clients (direct Conn, Transport, load-balancing Client) used idle / with calls in flight on a slow handler / with an open stream / with callers waiting for a target / with a dead peer, then closed in a seeded order (client first, server first, transport before conns ...), every Close repeated; afterwards the goroutine profile restricted to library frames and the number of open descriptors must be back to the baseline, repeated Close calls must return ErrShutdown (Conn) or nil (others), and Listen must have returned; a peer that opens a stream and disconnects at once (the handler started for it must return); non-trivial = distinct (usage, close order)"
 	writeCases(work, "From Coq Require Import List. Import ListNotations. From RPC Require Import RunServer.", "scase", nil, 60)
 }
 
@@ -275,5 +276,80 @@ func lifeScenario(e *Env, dir string, i int, warm bool) {
 	}
 	if len(e.Res.Samples) < 4 {
 		e.sample(desc)
+	}
+}
+
+// lifeOpenThenGone: a peer sends a stream-open request and disconnects at once, so that the open request
+// may still be queued for decoding when the reader sees the end of the connection.  The handler that is
+// started for it must be released by the teardown and return; ServeCodec returns; nothing is left behind.
+type GoneSvc struct {
+	mu      sync.Mutex
+	started int
+	exited  int
+}
+
+func (g *GoneSvc) Chat(h *hStream) error {
+	g.mu.Lock()
+	g.started++
+	g.mu.Unlock()
+	for {
+		var m []byte
+		if err := h.s.ReadMessage(nil, &m); err != nil {
+			break
+		}
+	}
+	g.mu.Lock()
+	g.exited++
+	g.mu.Unlock()
+	return nil
+}
+
+func lifeOpenThenGone(e *Env) {
+	pid := e.Res.Property
+	rounds := 60
+	if e.thorough() {
+		rounds = 600
+	}
+	for k := 0; k < rounds; k++ {
+		mode := [][2]bool{{false, false}, {true, false}, {false, true}, {true, true}}[k%4]
+		desc := map[string]interface{}{"scenario": "stream open request, then the peer disconnects at once", "server_pipelining": mode[0], "server_directIO": mode[1], "extra_frames": k % 3, "round": k, "seed": e.Seed}
+		e.inflight(desc)
+		svc := &GoneSvc{}
+		srv := rpc.NewServer()
+		srv.SetLogLevel(rpc.OffLogLevel)
+		srv.SetPipelining(mode[0])
+		srv.SetDirectIO(mode[1])
+		srv.RegisterName("G", svc)
+		cend, send := newPipeCap(64)
+		done := make(chan struct{})
+		go func() {
+			srv.ServeCodec(rpc.NewServerCodec(&rpc.BYTESCodec{}, nil, send, mode[1], 0))
+			close(done)
+		}()
+		for i := 0; i < k%3; i++ { // some ordinary traffic in front of it
+			cend.WriteMessage(refPBReq(hdr{Seq: uint64(100 + i), Upgrade: []byte{0xE0}}))
+		}
+		cend.WriteMessage(refPBReq(hdr{Seq: 1, Upgrade: []byte{0xC8}, Method: []byte("G.Chat")}))
+		cend.Close()
+		select {
+		case <-done:
+		case <-time.After(5 * time.Second):
+			e.fail(pid+"-servecodec-does-not-return", "ServeCodec had not returned 5s after its peer disconnected right after a stream-open request", desc)
+		}
+		deadline := time.Now().Add(3 * time.Second)
+		for {
+			svc.mu.Lock()
+			st, ex := svc.started, svc.exited
+			svc.mu.Unlock()
+			if st == ex {
+				break
+			}
+			if time.Now().After(deadline) {
+				e.fail(pid+"-stream-handler-left-behind", fmt.Sprintf("a peer sent a stream-open request and disconnected at once: the handler started for it was still blocked in ReadMessage 3s after ServeCodec had returned (started %d, returned %d)", st, ex), desc)
+				break
+			}
+			time.Sleep(time.Millisecond)
+		}
+		e.count("open-then-gone", fmt.Sprintf("otg-%d", k%12))
 	}
 }
